@@ -1688,6 +1688,8 @@ fn c20_observe(r: &Result<(A2lFile, Vec<A2lError>), A2lError>) {
             vrt_observe_u64(first_line as u64);
             let out = file.write_to_string();
             vrt_observe_bytes(out.as_bytes());
+            // every data field of the model, not only what the writer shows
+            vrt_observe_bytes(&crate::verif_fp::fingerprint(file));
         }
         Err(e) => {
             vrt_observe_u64(0);
@@ -1778,4 +1780,50 @@ pub(crate) fn h_c20_module_ops() {
     vrt_observe_bytes(a.write_to_string().as_bytes());
     a.cleanup();
     vrt_observe_bytes(a.write_to_string().as_bytes());
+}
+
+// ------------------------------------------------------------------ every element of the grammar (document generated from the DSL)
+
+const EVERY_ELEMENT: &str = include_str!("verif_every_element.txt");
+
+/// One document that holds every block and keyword of the grammar (generated at check time from the DSL in
+/// specification_orig.rs, file version 1.71): it loads in strict mode without a diagnostic, every token is written
+/// back, the reloaded model is equal (also field by field through the generated fingerprint), the second write is
+/// identical.
+pub(crate) fn h_every_element_roundtrip() {
+    vrt_cover(!crate::verif_fp::VERIF_FP_STUB, "generated document and fingerprint module are in place");
+    match load_from_string(EVERY_ELEMENT, None, true) {
+        Ok((file, log)) => {
+            vrt_check(log.is_empty(), "C01 a document built from the grammar loads in strict mode without any diagnostic");
+            let out1 = file.write_to_string();
+            let a = significant(EVERY_ELEMENT);
+            let b = significant(&out1);
+            vrt_check(a.len() == b.len(), "C02 load+write keeps the number of significant tokens of the every-element document");
+            let n = if a.len() < b.len() { a.len() } else { b.len() };
+            let mut mismatches = 0u32;
+            for i in 0..n {
+                let same = if a[i].0 == 5 && b[i].0 == 5 { number_value(&a[i].1) == number_value(&b[i].1) } else { a[i].0 == b[i].0 && a[i].1 == b[i].1 };
+                if !same { mismatches += 1; }
+            }
+            vrt_check(mismatches == 0, "C02 every token of the every-element document survives load and write with its value");
+            match load_from_string(&out1, None, true) {
+                Ok((file2, _)) => {
+                    vrt_check(file2 == file, "C01 load(write(M)) == M on the every-element document");
+                    vrt_check(crate::verif_fp::fingerprint(&file2) == crate::verif_fp::fingerprint(&file), "C01 every data field of the reloaded every-element model is equal");
+                    vrt_check(file2.write_to_string() == out1, "C01 the second write of the every-element document is identical to the first");
+                }
+                Err(_) => vrt_check(false, "C01 the written every-element document loads again"),
+            }
+            vrt_observe_u64(crate::verif_fp::fingerprint(&file).len() as u64);
+        }
+        Err(_) => vrt_check(false, "C01 a document built from the grammar loads in strict mode"),
+    }
+}
+
+/// C20: the every-element document on both builds: diagnostics, written text and every data field of the model
+pub(crate) fn h_c20_every_element() {
+    vrt_cover(!crate::verif_fp::VERIF_FP_STUB, "generated document and fingerprint module are in place");
+    let strict = vrt_choice(2) == 1;
+    let r = load_from_string(EVERY_ELEMENT, None, strict);
+    c20_observe(&r);
 }
